@@ -477,7 +477,7 @@ pub enum Val {
 
 pub fn val_strategy() -> impl Strategy<Value = Val> {
     prop_oneof![
-        10 => (any::<bool>(), any::<u8>()).prop_map(|(var, salt)| Val::Good { var, salt }),
+        16 => (any::<bool>(), any::<u8>()).prop_map(|(var, salt)| Val::Good { var, salt }),
         2 => pkind_strategy().prop_map(Val::Var),
         1 => pkind_strategy().prop_map(Val::Lit),
     ]
@@ -927,6 +927,19 @@ impl<'a> Ctx<'a> {
                                 let mut inner = String::new();
                                 let sid = if i == 0 { mf.sub_id } else { IdSpec::None };
                                 self.mut_fields(target, &mf.sub, true, sid, false, &mut inner);
+                                if inner.trim().is_empty() && mf.count % 4 != 3 {
+                                    // the grammar wants at least one field in a reference
+                                    match target.fields.iter().find(|f| !f.ty.is_ref()) {
+                                        Some(f) => {
+                                            let v = self.scalar_value(f, Val::Good { var: i % 2 == 0, salt: mf.count }, "mut");
+                                            inner = format!(" {}: {} ", f.name, v);
+                                        }
+                                        None => {
+                                            let v = self.id_value(IdSpec::Unknown).unwrap_or_default();
+                                            inner = format!(" id: {} ", v);
+                                        }
+                                    }
+                                }
                                 parts.push(format!("{{{}}}", inner));
                             }
                             if matches!(f.ty, Ty::Array(_)) {
@@ -1011,15 +1024,23 @@ impl<'a> Ctx<'a> {
                         self.out.facts.filter_on_system_alias = true;
                     }
                     let f = RField { name: name.clone(), ty, nullable, default: if has_default { Some(String::new()) } else { None } };
+                    let mut op = *op;
                     let v = if ty.is_ref() {
                         match val {
                             Val::Var(k) => self.var(*k),
                             Val::Lit(k) if !matches!(k, PKind::Null) => literal_of(*k, self.avoid.inf_float, &mut Vec::new()),
-                            _ => "null".to_string(),
+                            _ => {
+                                // the only filter the language has on a reference: (not) null
+                                if op % 8 != 7 {
+                                    op %= 2;
+                                }
+                                "null".to_string()
+                            }
                         }
                     } else {
                         self.scalar_value(&f, *val, "filter")
                     };
+                    let op = &op;
                     if ty == Ty::Json && has_default {
                         self.out.facts.json_default_selected = true;
                     }
@@ -1059,6 +1080,18 @@ impl<'a> Ctx<'a> {
                     parts.push(format!("{} {}", kw, v));
                 }
                 QParam::Paging { before, vals } => {
+                    if !params.iter().any(|p| matches!(p, QParam::OrderBy(_))) {
+                        // paging needs an ordering: give it one most of the time
+                        if vals.len() % 4 != 3 {
+                            parts.push("order_by(mdate desc)".to_string());
+                            let v = match vals.first() {
+                                Some(Val::Good { var: true, .. }) | Some(Val::Var(PKind::Int(_))) => self.var(PKind::Int(6)),
+                                _ => "1704067200000".to_string(),
+                            };
+                            parts.push(format!("{}({})", if *before { "before" } else { "after" }, v));
+                            continue;
+                        }
+                    }
                     let mut vs = Vec::new();
                     for v in vals {
                         let t = match v {
@@ -1123,6 +1156,7 @@ impl<'a> Ctx<'a> {
         let scalars: Vec<&RField> = ent.fields.iter().filter(|f| !f.ty.is_ref()).collect();
         let refs: Vec<&RField> = ent.fields.iter().filter(|f| f.ty.is_ref()).collect();
         let sys = ["id", "cdate", "mdate", "room_id", "verifying_key", "_signature", "_entity"];
+        let sys_ty = [Ty::Base64, Ty::Integer, Ty::Integer, Ty::Base64, Ty::Base64, Ty::Base64, Ty::String];
         for qf in fields {
             match qf {
                 QField::Scalar { field, alias } => {
@@ -1131,7 +1165,7 @@ impl<'a> Ctx<'a> {
                     let (name, ty, has_default) = if i < scalars.len() {
                         (scalars[i].name.clone(), scalars[i].ty, scalars[i].default.is_some())
                     } else {
-                        (sys[i - scalars.len()].to_string(), Ty::String, false)
+                        (sys[i - scalars.len()].to_string(), sys_ty[i - scalars.len()], false)
                     };
                     if ty == Ty::Json && has_default {
                         self.out.facts.json_default_selected = true;
@@ -1237,6 +1271,10 @@ impl<'a> Ctx<'a> {
                     }
                 }
             }
+        }
+        if text.trim().is_empty() && !fields.is_empty() {
+            text.push_str(" id ");
+            selected.push(("id".to_string(), Ty::Base64));
         }
         (text, selected)
     }
